@@ -273,8 +273,15 @@ func (*c10Engine) Generate(seed uint64, tier string) *Case {
 	src, frags := genKnobProgram(r)
 	p := knobParams{Src: src, Fragments: frags}
 	// log-uniform initial stack: from a handful of slots up to the default and beyond
-	p.InitStack = 16 << uint(r.Intn(9)) // 16 .. 4096
+	// log-uniform from 64 slots up; stacks below 64 slots (the known finding: a frame can
+	// overrun the stack, which corrupts memory) are drawn in 3% of the cases only, and the
+	// worker process is recycled after each of them so that a corrupted heap cannot taint
+	// the cases that would follow in the same process
+	p.InitStack = 64 << uint(r.Intn(7)) // 64 .. 4096
 	p.InitStack += r.Intn(p.InitStack)
+	if r.Chance(0.03) {
+		p.InitStack = r.Range(16, 63)
+	}
 	p.MaxStack = Pick(r, []int{defMaxStack, defMaxStack, 1 << 22, 1 << 20, 1 << 17})
 	p.CallStack = Pick(r, []int{defCallStack, defCallStack, 4096, 2 * defCallStack, 64, 300})
 	p.Pool = r.Range(1, 8)
@@ -362,6 +369,9 @@ func (*c10Engine) Execute(t *testing.T, c *Case) *Verdict {
 	v.Hash = hashStrings(string(c.Params), hashDecisions(got.res.Decisions))
 	v.Nontrivial = true
 	v.Extra = map[string]int64{"forced_reallocations": int64(got.grows), "init_stack_below_default": b2i(p.InitStack < defInitStack)}
+	if p.InitStack < 64 {
+		v.Extra["recycle_worker"] = 1
+	}
 	for _, f := range p.Fragments {
 		v.Extra["fragment_"+strings.TrimRight(f, "0123456789")]++
 	}
@@ -403,6 +413,15 @@ func (*c10Engine) Execute(t *testing.T, c *Case) *Verdict {
 		return bad("result", "output or result differs from the default configuration\nperturbed output:\n%s\nerror: %q (reference error %q)", got.out, got.err, ref.err)
 	}
 	return v
+}
+
+// DeathSig classifies the death of a worker process that was running c.
+func (*c10Engine) DeathSig(c *Case) string {
+	var p knobParams
+	if json.Unmarshal(c.Params, &p) == nil && p.InitStack < 64 {
+		return "tiny-initial-stack"
+	}
+	return "process_death"
 }
 
 func (*c10Engine) Shrink(c *Case) []*Case {
